@@ -29,7 +29,8 @@ Definition ok_C17 (c : case17) (o : obs17) : bool :=
    0 write len=a   1 read len=a   2 slice guard len=a mut=b (all bytes accessed through it)
    3 ref store tsize=a   4 ref load   5 array store tsize=a n=b i=c   6 array load
    7 array copy_from tsize=a n=b k=c   8 array copy_to   9 atomic load tsize=a
-   10 copy_to_volatile_slice len=a *)
+   10 copy_to_volatile_slice len=a   11 read_volatile_from count=a srclen=b   12 write_volatile_to count=a
+   13 slice copy_from len=a tsize=b k=c   14 slice copy_to len=a tsize=b k=c *)
 Record xopc := { x_code : N; x_off : N; x_a : N; x_b : N; x_c : N }.
 Record case17x := { cx_mode : mode; cx_rkind : N; cx_size : N; cx_gbase : N; cx_page : N;
                     cx_ops : list xopc }.
@@ -52,6 +53,10 @@ Definition touched (size : N) (op : xopc) : option (N * N) :=
   | 3 | 4 | 9 => if off + a <=? size then Some (off, a) else None
   | 5 | 6 => if (off + b * a <=? size) && (c <? b) then Some (off + c * a, a) else None
   | 7 | 8 => if off + b * a <=? size then Some (off, N.min c b * a) else None
+  | 11 => if size <? off then None else Some (off, N.min (N.min (size - off) a) b)
+  | 12 => if size <? off then None else Some (off, N.min (size - off) a)
+  | 13 | 14 => if off + a <=? size
+               then Some (off, if b =? 1 then N.min c a else N.min c (a / b) * b) else None
   | _ => None
   end.
 
